@@ -258,7 +258,7 @@ for _s, _edd, _et in CONFIGS:
     for _lo in range(0, len(TYPE_CASES), 3):
         _hi = min(_lo + 2, len(TYPE_CASES) - 1)
         ob("C01", "P1.types.%s.k%d" % (_cfg_tag(_s, _edd, _et), _lo), {"kind": R(_lo, _hi), "x": PR}, pre="x != 47", T=400, tpath=60,
-           tier="quick" if (_edd and _et and _s == "rest") else "thorough", funcs=FUNCS, assumes=[ADHOC_SHIMS_DOC],
+           tier="quick" if (_edd and _et and _s == "rest" and _lo % 6 == 0) else "thorough", funcs=FUNCS, assumes=[ADHOC_SHIMS_DOC],
            bound="two parameters + return entry; the second parameter's (and the return entry's) type is one of %s with/without default; description 'the '+X+' arg' for every printable X except '/'" % ", ".join(t for t, _ in TYPE_CASES[_lo:_hi + 1]),
            )(_p1_types(_s, _edd, _et, _lo, _hi))
 
